@@ -339,6 +339,9 @@ func (Prop) Gen(seed int64, tier string) *harness.Case {
 			}
 		case "SetExt":
 			op.Stub = r.Intn(nStubs)
+			if r.Intn(4) == 0 {
+				op.Stub = -1 // detach: SetExternalLookup(nil)
+			}
 		}
 		w.Ops = append(w.Ops, op)
 	}
@@ -646,6 +649,11 @@ func (r *run) step(op Op) (msg string) {
 	case "DeepCopy":
 		r.scopes = append(r.scopes, pair{e.DeepCopy(), m.deepCopy()})
 	case "SetExt":
+		if op.Stub < 0 {
+			e.SetExternalLookup(nil)
+			m.ext = nil
+			break
+		}
 		e.SetExternalLookup(r.stubsR[op.Stub])
 		m.ext = r.stubsM[op.Stub]
 	case "EnvFromPath":
